@@ -3,10 +3,16 @@
 The decision is taken by Coq: every `cert` case carries the term `c_xxx graph output` (a
 certificate checker of coq/Algo/Cert.v, proved sound in coq/Algo/Proofs*.v) applied to what the
 real algorithm returned on a graph built in a real store; `false` means the answer violates the
-algorithm's specification on that graph.  Kinds without a Coq certificate (triangles, k-core,
-bridges, articulation points, PageRank, cross-algorithm agreement) are decided by brute force in
-the harness — support only.  Failing answers are classified by the `k_*` predicates (evaluated
-in Coq) against the open findings of known.d/C19.json; anything else is a VIOLATION."""
+algorithm's specification on that graph.  That includes the structure algorithms (triangle
+counts, local clustering coefficient, k-core numbers, bridges, articulation points) and PageRank
+as a distribution: their executable specifications (coq/Algo/CertStruct.v, proved sound in
+ProofsStruct.v / ProofsPr.v) are evaluated in Coq on the implementation's outputs; the harness's own
+brute-force answers only cross-check the Coq verdicts.  Kinds still decided by the harness alone
+(support only): degree centrality, agreement between algorithms, consistency between API
+functions, path counts of ShortestPathOperator, community labelling totality.  `corr` cases compare
+the transcribed models (Bellman-Ford, Dijkstra, Kruskal, closure reachability, PageRank over exact
+rationals) with the implementation.  All findings of known.d/C19.json are repaired in /repo
+(status fixed): any failing answer is a VIOLATION."""
 import json
 import gv
 
@@ -17,10 +23,11 @@ BINS = ["c19"]
 
 TRUSTED = [
     "Coq 8.16.1 kernel (coqc; vm_compute runs the certificate checkers; no native_compute)",
-    "coq/Algo/Spec.v is the specification (walks, distance as minimum over walks, connectivity closures, forests, flows/cuts)",
+    "coq/Algo/Spec.v is the specification (walks, distance as minimum over walks, connectivity closures, forests, flows/cuts, "
+    "triangles, k-dense sets, bridges, cut vertices, distributions; f64_scaled = the value of a binary64 bit pattern)",
     "harness/src/bin/c19.rs: builds the graph through LpgStore/GrafeoDB, checks that node_ids()/edges_from() show exactly that graph, "
-    "prints graph + algorithm output as Coq terms; brute-force oracles for the kinds without certificate; lib/gv.py",
-    "integer weights/capacities so that the implementation's f64 arithmetic is exact (non-integral outputs are reported as failures)",
+    "prints graph + algorithm output as Coq terms (floats as bit patterns); brute-force oracles cross-check the Coq verdicts; lib/gv.py",
+    "integer weights/capacities so that the implementation's f64 path/flow arithmetic is exact (non-integral outputs are reported as failures)",
 ]
 
 
@@ -117,7 +124,7 @@ def _run(tier, seed, extra=None):
     chk = gv.Check(PROP, tier, seed, level="proof")
     _merge_fragment(chk)
     proof = gv.proof_status(PROP, REQ_PROPS)
-    ngraphs = 40 if tier == "quick" else 400
+    ngraphs = 40 if tier == "quick" else 300
     ok, out, binp = gv.cargo_build("c19")
     if not ok:
         chk.violation("build", {"what": "the harness no longer builds against /repo's working tree", "log": out[-3000:],
@@ -133,7 +140,9 @@ def _run(tier, seed, extra=None):
         "generated directed multigraphs (0-10 nodes, 0-25 edges; shapes: random, forward-only (DAG), two parts, rings with parallel edges, "
         "symmetric pairs; weight profiles: non-negative with zeros and ties, negative admitted, all missing, mixed Int64/Float64/String/"
         "missing; deleted edges, detach-deleted nodes; LpgStore or GrafeoDB) through every public algorithm function; every source and "
-        "pair on graphs with <= 4 / <= 3 nodes, sampled otherwise (all sources in the thorough tier). A case is non-trivial when its "
+        "pair on graphs with <= 4 / <= 3 nodes, sampled otherwise (all sources in the thorough tier); plus graphs with 1/2/4/8 nodes and "
+        "out-degrees 0/1/2/4 on which PageRank's binary64 arithmetic is exact (damping 0, 1/4, 1/2, 3/4, 1; 0-6 iterations; tolerances that "
+        "do and do not trigger the early exit). A case is non-trivial when its "
         "graph has >= 3 nodes, >= 3 edges and a cycle, a parallel edge, an unreachable node or a zero-weight edge; distinct = distinct "
         "(kind, graph, arguments)")
     picks, seen = [], set()
@@ -145,9 +154,12 @@ def _run(tier, seed, extra=None):
     chk.coverage["trusted_base"] = TRUSTED
     chk.assumptions = [
         "the implementation's f64 results are compared as exact integers (all generated weights/capacities are integers of magnitude < 10)",
-        "PageRank (sum = 1 within 1e-9, scores >= 0), triangles, k-core, bridges, articulation points, degree centrality, agreement between "
-        "algorithms: brute force in the harness, support only (no theorem)",
-        "betweenness/closeness centrality, label propagation, Louvain, min-cost optimality of min_cost_max_flow, leapfrog join: not covered",
+        "PageRank on general inputs is checked as a distribution only (finite, >= 0, exact sum of the returned binary64 values within 1e-9 of 1); "
+        "its values are compared with the exact-rational model only on inputs where binary64 arithmetic is exact",
+        "degree centrality, agreement between algorithms, consistency between API functions (clustering_coefficient vs triangle_count etc.): "
+        "harness only, support (no theorem)",
+        "betweenness/closeness centrality, global clustering coefficient, label propagation, Louvain, min-cost optimality of min_cost_max_flow, "
+        "leapfrog join: not covered",
     ]
     return chk.finish(proof)
 
